@@ -73,6 +73,10 @@ def obligations(tier, seed=0):
     add('hash_mpf', bc=62, exp=0, entry='op')
     for rbc, rexp, ibc, iexp in [(3, 0, 0, 0), (1, 0, 0, 0), (3, 0, 2, 1), (1, 0, 1, 0), (0, 0, 3, 0), (5, -2, 5, -2), (30, 33, 20, 40), (62, 0, 3, 0), (9, 55, 9, -5), (3, 0, 30, 20)]:
         add('hash_mpc', rbc=rbc, rexp=rexp, ibc=ibc, iexp=iexp)
+    # enough freedom for the combined hash to land exactly on the signed-wrap boundary 2**63 (and just beside it)
+    for rbc, ibc in [(20, 44), (24, 45), (10, 43), (30, 44)]:
+        add('hash_mpc', rbc=rbc, rexp=0, ibc=ibc, iexp=0)
+    add('hash_mpc', rbc=20, rexp=0, ibc=44, iexp=0, entry='op')
     add('hash_mpc', rbc=3, rexp=0, ibc=2, iexp=1, entry='op')
     add('hash_mpc', rbc=3, rexp=1, ibc=0, iexp=0, entry='op')
     return obs
